@@ -292,6 +292,13 @@ func solveOne(i int, o *Obligation, cfg RunConfig) {
 	default:
 		o.Status = "unknown"
 	}
+	if o.Status != "discharged" && os.Getenv("VC_RELAXED") != "" {
+		rq := o.Script.Query(o.Pos, Not(o.Goal), true)
+		if o.Extra != "" {
+			rq = strings.Replace(rq, "(check-sat)", o.Extra+"\n(check-sat)", 1)
+		}
+		os.WriteFile(file+".relaxed.smt2", []byte(rq), 0o644)
+	}
 	if o.Status == "discharged" && os.Getenv("VC_KEEP") == "" {
 		os.Remove(file)
 	}
